@@ -540,13 +540,14 @@ func (e *Engine) Generate(fname string, sweep bool) (*FuncResult, error) {
 	r.Blocks = len(fn.Blocks)
 	if g.con != nil {
 		for i := range g.con.CallGuards {
-			if !g.con.CallGuards[i].Used {
+			// a guard whose condition is literally false is a prohibition: no match is the expected state
+			if !g.con.CallGuards[i].Used && strings.TrimSpace(g.con.CallGuards[i].Cond.Text) != "false" {
 				r.SpecErrs = append(r.SpecErrs, fmt.Sprintf("contract anchor lost: guard-call %q (%s) matched no call site in %s", g.con.CallGuards[i].Pattern.String(), g.con.CallGuards[i].Cond.Label, fname))
 			}
 			g.con.CallGuards[i].Used = false
 		}
 		for i := range g.con.StoreGuards {
-			if !g.con.StoreGuards[i].Used {
+			if !g.con.StoreGuards[i].Used && strings.TrimSpace(g.con.StoreGuards[i].Cond.Text) != "false" {
 				r.SpecErrs = append(r.SpecErrs, fmt.Sprintf("contract anchor lost: guard-store %q (%s) matched no store in %s", g.con.StoreGuards[i].Pattern.String(), g.con.StoreGuards[i].Cond.Label, fname))
 			}
 			g.con.StoreGuards[i].Used = false
